@@ -90,7 +90,7 @@ func (t *HToken) gatedBody(tag string, n string) (string, error) {
 			}
 			prev = string(v)
 		}
-		seen = append(seen, prev)
+		seen = append(seen, prev+"@"+stub.GetTxID()) // what it read, and in whose transaction it is working
 		if err := stub.PutState("c17_"+tag+"_"+strconv.Itoa(j), []byte(tag+"#"+strconv.Itoa(j)+"<"+prev)); err != nil {
 			return "", err
 		}
@@ -103,6 +103,25 @@ func (t *HToken) NBTxGp(tag string, n string) error {
 	_, err := t.gatedBody(tag, n)
 	return err
 }
+
+// GatedArg is an argument whose decoding is a switch point of its own (like an argument type that reads the ledger while
+// it is decoded): the invocation parks there, between the conversion of its earlier arguments and the call of the method.
+type GatedArg struct{ V string }
+
+func (g *GatedArg) DecodeFromBytesWithStub(_ shim.ChaincodeStubInterface, b []byte) error {
+	g.V = string(b)
+	gate("arg:" + g.V)
+	return nil
+}
+
+// NBTxGa: the gated body behind an argument that parks while it is decoded (the tag comes first: it is converted before)
+func (t *HToken) NBTxGa(tag string, _ *GatedArg, n string) error {
+	_, err := t.gatedBody(tag, n)
+	return err
+}
+
+// QueryGq: the gated body as a query (its writes must go nowhere, whichever invocations run next to it)
+func (t *HToken) QueryGq(tag string, n string) (string, error) { return t.gatedBody(tag, n) }
 
 func (t *HToken) TxGated(_ *types.Sender, tag string, n string) (string, error) {
 	return t.gatedBody(tag, n)
